@@ -1,5 +1,5 @@
 #!/usr/bin/env python3
-"""C09 -- layout grouping follows the documented margins; the result is scale-invariant (DESIGN.md 3.C09)."""
+"""C09 -- layout grouping follows the documented margins; the result is scale-invariant (DESIGN.md section 4, C09)."""
 import os
 import sys
 from fractions import Fraction
@@ -38,7 +38,7 @@ MANIFEST_ENTRY = {
             "the larger side of the new glyph; for every k > 0 the lines (members, order, spaces) of the scaled page are the "
             "scaled lines of the original page. The later stages are checked under powers of two by the harness.",
     "note": "Trusted: Coq kernel, hand model tied by exact differential runs; documentation reading above.",
-    "design_ref": "DESIGN.md 3.C09",
+    "design_ref": "DESIGN.md section 4, C09",
 }
 
 F = Fraction
